@@ -404,14 +404,15 @@ fn pick_rate(r: &mut Rng) -> u32 {
 /// Positions of interest for a sequence of `len` bits: word / rank-block / L1 / L2 edges ±2,
 /// the ends, and `extra` random ones.
 fn positions(r: &mut Rng, len: usize, extra: usize, cap: usize) -> Vec<usize> {
+    let halo = if extra >= 100 { 2usize } else { 1 };
     let mut ps = Vec::new();
     if len <= cap {
         ps.extend(0..len + 2);
         return ps;
     }
     let edge = |c: usize, ps: &mut Vec<usize>| {
-        for d in 0..5usize {
-            let p = (c + d).saturating_sub(2);
+        for d in 0..(2 * halo + 1) {
+            let p = (c + d).saturating_sub(halo);
             ps.push(p);
         }
     };
@@ -448,7 +449,7 @@ fn emit_all_ops(r: &mut Rng, emit: &mut dyn FnMut(String), ws: &[u64], len: usiz
             (0..tot + 2).collect()
         } else {
             let mut ks = vec![0, 1, tot - 1, tot, tot + 1, 255, 256, 257, 511, 512];
-            for _ in 0..40 {
+            for _ in 0..(if len > 20_000 { 12 } else { 40 }) {
                 ks.push(r.usize_below(tot + 1));
             }
             ks
@@ -601,7 +602,7 @@ pub fn gen(tier: Tier, r: &mut Rng, emit: &mut dyn FnMut(String)) {
     }
 
     // ---- large inputs
-    let (nlarge, maxlen) = if quick { (26, 70_000usize) } else { (400, 262_144usize) };
+    let (nlarge, maxlen) = if quick { (15, 70_000usize) } else { (400, 262_144usize) };
     for i in 0..nlarge {
         let kind = i as u64 % NKINDS;
         let target = match i % 5 {
@@ -623,7 +624,7 @@ pub fn gen(tier: Tier, r: &mut Rng, emit: &mut dyn FnMut(String)) {
         let b = Bits { v: bits };
         let garbage = r.chance(2, 3);
         let (ws, len) = b.to_words(r, garbage);
-        let ps = positions(r, len, if quick { 40 } else { 120 }, 0);
+        let ps = positions(r, len, if quick { 20 } else { 120 }, 0);
         let ones = count_ones(&ws, len);
         let ctor = pick_ctor(r);
         emit_all_ops(r, emit, &ws, len, &ctor, &ps, ones);
@@ -654,7 +655,7 @@ pub fn gen(tier: Tier, r: &mut Rng, emit: &mut dyn FnMut(String)) {
         bits.extend(std::iter::repeat(false).take(depth));
         let b = Bits { v: bits };
         let (ws, len) = b.to_words(r, true);
-        let ps = positions(r, len, 40, 0);
+        let ps = positions(r, len, 12, 0);
         let ones = count_ones(&ws, len);
         emit_all_ops(r, emit, &ws, len, "fw", &ps, ones);
         emit(format!("C04 idx fw {} {len}", hex_words(&ws)));
